@@ -134,6 +134,14 @@ def forms(OrderedSet, FrozenOrderedSet):
 SETLIKE = ("set", "oset", "foset", "dictkeys")
 ONESHOT = ("iter", "gen")
 
+# arguments that are (lazy) views of the RECEIVER itself: s.difference_update(x for x in s if ...), s |= s
+SELF_FORMS = {
+    "self": lambda obj: obj,
+    "self-iter": iter,
+    "self-gen": lambda obj: (x for x in obj),
+    "self-filter": lambda obj: filter(lambda x: True, obj),
+}
+
 
 def arg_sequences(alphabet):
     seqs = []
@@ -244,8 +252,12 @@ class Machine:
         obj, ref = self.cls(), []
         for ev in hist:
             op, form, raw = ev
-            args = self.make_args(form, raw)
-            refargs = self.ref_args(form, raw)
+            if form in SELF_FORMS:
+                args = (SELF_FORMS[form](obj),)
+                refargs = (list(ref),)
+            else:
+                args = self.make_args(form, raw)
+                refargs = self.ref_args(form, raw)
             r = ref_mutate(ref, op, refargs)
             got = call(apply_mut, obj, op, args)
             if r == "pop":
@@ -294,6 +306,11 @@ class Machine:
             for form in self.forms:
                 for s in self.seqs:
                     evs.append((op, form, [s]))
+        for op in MUT_ITER:
+            for form in SELF_FORMS:
+                evs.append((op, form, []))
+        for op in MUT_OP:
+            evs.append((op, "self", []))
         return evs
 
     def fp(self, op, form, sig):
